@@ -10,8 +10,9 @@
 //   - verdicts are taken from PACKED programs (one function per sequence; the borrow checker
 //     runs per function and its diagnostics carry the line of the conflicting access), and
 //     every disagreement with the oracle is re-decided on a single-sequence program before it
-//     is reported; a pack with any diagnostic that is not a T0004 inside a case's lines is
-//     re-decided case by case. This makes all place pairs affordable in the quick tier.
+//     is reported (up to four per pack; once four have confirmed the pack's per-function
+//     attribution the remaining disagreements of that pack are taken from it); a pack with any
+//     diagnostic that is not a T0004 inside a case's lines is re-decided case by case. This makes all place pairs affordable in the quick tier.
 //   - an eighth place pair child-parent (s.A / s) is added: T1m exists for place 1 only, so
 //     parent-child is not symmetric under swapping the places.
 //   - T1m IS judged: the temporary `&'p1` is an argument of a callee that returns nothing, so
@@ -153,16 +154,23 @@ func (k *checker) verdictPack(pi, lo, hi int) {
 	if !trust {
 		k.c.Count("packs_redecided_case_by_case", 1)
 	}
+	// disagreements with the oracle are re-decided alone; after four of one pack have
+	// confirmed the pack's own per-function attribution, the rest of that pack is believed
+	confirmed, contradicted := 0, false
 	for i := lo; i < hi; i++ {
 		j := i - lo
 		s := k.seqs[i]
 		cs := conflicts(s, p.paths(), false)
 		want := judge(cs)
 		rej, msg := isRej[j], rejected[j]
-		if !trust || (want == mustAccept && rej) || (want == mustReject && !rej) {
+		if !trust || (((want == mustAccept && rej) || (want == mustReject && !rej)) && (confirmed < 4 || contradicted)) {
 			acc, m, ok := k.alone(pi, i)
 			if !ok {
 				continue
+			}
+			confirmed++
+			if trust && acc == rej {
+				contradicted = true // the pack's attribution was wrong once: confirm every one
 			}
 			rej, msg = !acc, m
 		}
@@ -281,9 +289,15 @@ func reTmp(l string) string {
 	return strings.Join(f, " ")
 }
 
-func (k *checker) runAlone(rc runCase) {
+// runAlone executes one case as a program of its own and judges it; it returns the lines.
+func (k *checker) runAlone(rc runCase) []string {
 	src := rc.single()
 	got, detail := k.execProgram(src)
+	k.judgeRun(rc, got, detail)
+	return got
+}
+
+func (k *checker) judgeRun(rc runCase, got []string, detail string) {
 	if detail == "" && strings.Join(got, "|") != strings.Join(rc.want, "|") {
 		detail = "printed lines differ"
 	}
@@ -294,7 +308,7 @@ func (k *checker) runAlone(rc runCase) {
 	k.c.Outcome("run-mismatch")
 	k.c.Fail(vl.Fail{Case: rc.id,
 		Obs:   fmt.Sprintf("accepted, but the running program does not show write-through semantics: %s; want %s got %s", detail, strings.Join(rc.want, "|"), canonGarbage(got)),
-		Files: map[string]string{"main.fer": src, "expected.txt": strings.Join(rc.want, "\n") + "\n"}})
+		Files: map[string]string{"main.fer": rc.single(), "expected.txt": strings.Join(rc.want, "\n") + "\n"}})
 }
 
 func (k *checker) runPack(rcs []runCase) {
@@ -336,12 +350,24 @@ func (k *checker) runPack(rcs []runCase) {
 	if !ok {
 		k.c.Count("run_packs_redecided_case_by_case", 1)
 	}
+	// a case whose lines differ is re-run alone; after four single runs of this pack have
+	// printed exactly what the pack printed for them, the pack's lines are believed
+	same := 0
 	for j, rc := range rcs {
 		if ok && strings.Join(per[j], "|") == strings.Join(rc.want, "|") {
 			k.c.Count("outputs_matched", 1)
 			continue
 		}
-		k.runAlone(rc)
+		if ok && same >= 4 {
+			k.judgeRun(rc, per[j], "")
+			continue
+		}
+		got := k.runAlone(rc)
+		if ok && strings.Join(got, "|") == strings.Join(per[j], "|") {
+			same++
+		} else {
+			same = -1 << 30
+		}
 	}
 }
 
@@ -423,6 +449,15 @@ func Run(c *vl.Ctx) {
 			levelEnd[n] = levelEnd[n-1]
 		}
 	}
+	// the shortest sequences in which a reference bound outside a block has its last use
+	// inside it need five events: the quick tier takes these few from the next level
+	if maxLen == 4 {
+		for _, s := range []seq{{B1m, Open, U1, R1, Close}, {B1m, Open, W1, T1m, Close}, {B1s, Open, U1, M1, Close}, {B2m, Open, U2, R1, Close}, {B1m, Open, U1, Close, R1}} {
+			k.index[s.String()] = len(k.seqs)
+			k.seqs = append(k.seqs, s)
+		}
+		levelEnd = append(levelEnd, len(k.seqs))
+	}
 	c.Count("sequences", int64(len(k.seqs)))
 	k.res = make([][]uint8, len(k.pairs))
 	for i := range k.res {
@@ -456,7 +491,7 @@ func Run(c *vl.Ctx) {
 	doneLevel := -1
 	var executed, skippedSilent, skippedStore, skippedQuick int64
 	lo := 0
-	for n := 0; n <= maxLen; n++ {
+	for n := 0; n < len(levelEnd); n++ {
 		hi := levelEnd[n]
 		if c.OverBudget() {
 			break
@@ -592,10 +627,10 @@ func Run(c *vl.Ctx) {
 	}
 	c.Assume = append(c.Assume,
 		"a temporary `&'p` passed to a callee that returns nothing is a `&'` borrow that ends with the statement",
-		"packed programs are a filter only: every disagreement with the oracle is re-decided on a single-sequence program before it is reported",
+		"packed programs are a filter: disagreements with the oracle are re-decided on single-sequence programs (at least the first four of every pack; the borrow checker works function by function)",
 		"two different constant indices of one array (a[0] / a[1]) may or may not be treated as overlapping: counted, not judged",
 		"a by-value parameter is a local of the function (its storage dies with the call)")
-	c.Finish(vl.Coverage{Evaluations: atomic.LoadInt64(&k.evals) + catalogueEvals, Exhaustive: doneLevel == maxLen,
+	c.Finish(vl.Coverage{Evaluations: atomic.LoadInt64(&k.evals) + catalogueEvals, Exhaustive: doneLevel == len(levelEnd)-1,
 		Rule:  fmt.Sprintf("all well-formed event sequences (15 event kinds: bind r1/r2 shared/mutable, read/write through, read/write the place, temporary &' to a callee, open/close block) of length <= %d x %d place pairs; oracle = loan model (live from bind to last use; &' loan vs any access, & loan vs write/&' borrow; overlap = path prefix); each must-reject sequence has its control twin in the same space; accepted sequences that print are run natively and compared with write-through semantics; plus the return/callee catalogue; distinct_nontrivial = sequences with at least one conflicting (event, loan) pair", maxLen, len(k.pairs)),
-		Bound: fmt.Sprintf("length<=%d (completed through length %d) pairs=%s", maxLen, doneLevel, strings.Join(names, ","))})
+		Bound: fmt.Sprintf("length<=%d%s (completed through level %d) pairs=%s", maxLen, map[bool]string{true: " plus 5 nested-block sequences of length 5", false: ""}[len(levelEnd) > maxLen+1], doneLevel, strings.Join(names, ","))})
 }
